@@ -42,5 +42,6 @@ Emit == PrintT(<<"CASE", [ mi |-> mi, k |-> k, sv |-> sv, sgn |-> SG,
                            kept |-> Kept(M, k, SG),
                            polein |-> PoleInSet(M), poletouch |-> PoleTouchSet(M),
                            polecorner |-> PoleCorner,
+                           flat |-> { f \in FaceIds(M) : FlatFace(M, f) },
                            seam |-> SeamNodes(M, k) ]>>)
 =============================================================================
